@@ -143,6 +143,11 @@ func (t *RType) Accepts(s string) bool {
 		if !utf8.ValidString(s) {
 			return false
 		}
+		for _, r := range s {
+			if !IsYangChar(r) {
+				return false
+			}
+		}
 		if t.Lens != nil && !inSet(t.Lens, big.NewInt(int64(utf8.RuneCountInString(s)))) {
 			return false
 		}
@@ -279,4 +284,24 @@ func RangeArg(parts []Interval, fd int, baseMin, baseMax *big.Int, useKeywords f
 		}
 	}
 	return strings.Join(out, " | ")
+}
+
+// IsYangChar: RFC 6020 9.4 / RFC 7950 section 14 yang-char: tab, line feed, carriage return and the characters
+// of Unicode that are not C0 controls, surrogates or non-characters.
+func IsYangChar(r rune) bool {
+	switch {
+	case r == 0x09 || r == 0x0A || r == 0x0D:
+		return true
+	case r < 0x20:
+		return false
+	case r >= 0xD800 && r <= 0xDFFF:
+		return false
+	case r >= 0xFDD0 && r <= 0xFDEF:
+		return false
+	case r&0xFFFE == 0xFFFE: // U+FFFE, U+FFFF and the last two code points of every plane
+		return false
+	case r > 0x10FFFF:
+		return false
+	}
+	return true
 }
